@@ -74,6 +74,7 @@ def run(F, rep, tier):
     minted_type_ids(F, rep, contracts)
     # the tokenizer's `char_at_byte[i].unwrap()`: Some exactly at the byte offsets where a character starts (and at the
     # end) - which is what the unit rules of C17 establish for every index used
+    token_callbacks_cannot_panic(F, rep)
     import positions
     before = len(rep.obs)
     positions.unit_rules(F, rep, "UNIT")
@@ -1978,3 +1979,35 @@ def minted_type_ids(F, rep, contracts, rule="MINTED"):
            line_of(shrink[0][1]) if shrink else None)
     rep.floor(rule, "TyID constructions", n_ctor, 4)
     rep.floor(rule, "indices into the type table", n_idx, 10)
+
+
+def token_callbacks_cannot_panic(F, rep, rule="CENSUS"):
+    """The callbacks in the attributes of enum Token run inside the generated lexer, on whatever text the pattern matched - text the
+    programmer controls.  A callback hands back a Result / Option / bool (logos makes a failed one the Error token); it does not unwrap:
+    the digits of an Int pattern are not all an i64 (`99999999999999999999`)."""
+    import toks
+    tk = toks.TokenSpec(F)
+    n = 0
+    for name in tk.order:
+        cb = tk.rules[name].get("callback")
+        if not cb or tk.rules[name].get("skip") and cb.strip() == "logos::skip":
+            continue
+        n += 1
+        bad = re.search(r"\b(unwrap|expect|unwrap_unchecked)\s*\(|\b(panic|unreachable|todo|unimplemented|assert|assert_eq)\s*!", cb)
+        for m_ in re.finditer(r"\[([^\]]*)\]", cb):
+            # a slice `[k..]` of the matched text: fine when every match starts with k ASCII characters the pattern spells out
+            k_ = re.fullmatch(r"\s*(\d+)\s*\.\.\s*", m_.group(1))
+            lead = 0
+            for op_, av_ in (tk._parsed(name) or []):
+                if str(op_) == "LITERAL" and av_ < 128:
+                    lead += 1
+                else:
+                    break
+            if not (k_ and int(k_.group(1)) <= lead):
+                bad = bad or m_
+        rep.ob(rule, "token-callback|%s|hands-failure-to-the-lexer" % name, bad is None,
+               "the callback of Token::%s (`%s`) returns its failure to the lexer, which makes it an Error token" % (name, cb.strip()[:60]) if bad is None else
+               "the callback of Token::%s contains `%s`: it runs on every text the pattern matches, and text the pattern matches but "
+               "the callback cannot convert (an integer literal of 20 digits) panics inside the lexer instead of becoming an Error token "
+               "and a syntax error" % (name, bad.group(0)))
+    rep.floor(rule, "token patterns with a callback", n, 3)
